@@ -1,7 +1,7 @@
 """C07 — the grammar reader reconstructs exactly the grammar that was written."""
 from props.common import *
 
-MODULE = "PestModel.Thm.C07"
+MODULE = ["PestModel.Thm.C07", "PestModel.Thm.C07Full"]
 DRV, MODE = "drv_read", "read"
 
 
@@ -20,7 +20,7 @@ def run(ctx):
                     "the reader's operator-precedence stage is C13's PrattParser with the table (| below ~, both left-associative): pratt_rebuilds is stated over PestModel.Pratt.parse",
                     "read_print for the whole reader (tokenisation of arbitrary spacing/comments by the meta-grammar) is covered by the round-trip sampling only: partial (DESIGN §6 C07)",
                 ],
-                leancheck=[MODULE],
+                leancheck=MODULE,
             )
         else:
             ok, out, bindir, _ = cargo_build(fs, [DRV])
